@@ -19,6 +19,9 @@ pub struct JudgeOpts<'a> {
     /// if set, only these conformance rule suffixes are reported (monitor rules are governed by
     /// `mon_prefixes`)
     pub only: Option<&'a [&'a str]>,
+    /// C05 ("from any reader state"): a successful seek to a record position restores exact
+    /// conformance even after an I/O error or a refusal has been returned earlier
+    pub exact_after_seek: bool,
 }
 
 #[derive(Clone, Copy, Debug, PartialEq)]
@@ -76,6 +79,26 @@ fn show_item(i: &Item) -> String {
         parts.push("end of input".into());
     }
     format!("{{{}}} at byte {} line {}", parts.join(" | "), i.byte, i.line)
+}
+
+fn shift_err(e: &ErrObs, dl: u64) -> ErrObs {
+    match e.clone() {
+        ErrObs::InvalidStart { line, found, id } => ErrObs::InvalidStart { line: line + dl, found, id },
+        ErrObs::InvalidSep { line, found, id } => ErrObs::InvalidSep { line: line + dl, found, id },
+        ErrObs::UnequalLengths { line, seq, qual, id } => ErrObs::UnequalLengths { line: line + dl, seq, qual, id },
+        ErrObs::UnexpectedEnd { line, id } => ErrObs::UnexpectedEnd { line: line + dl, id },
+        other => other,
+    }
+}
+
+/// error line numbers of a restarted reader -> input coordinates (the message is left alone and
+/// not checked in that case)
+fn shift_out(o: &Out, dl: u64) -> Out {
+    match o {
+        Out::Err(e, _) => Out::Err(shift_err(e, dl), String::new()),
+        Out::Drained(v) => Out::Drained(v.iter().map(|x| shift_out(x, dl)).collect()),
+        other => other.clone(),
+    }
 }
 
 pub fn msg_ok(e: &ErrObs, msg: &str) -> Result<(), String> {
@@ -171,9 +194,16 @@ pub fn judge_with_cursors(model: &Model, scn: &ReadScn, log: &RunLog, o: &JudgeO
         }
     };
 
+    // origin of the current reader (Restart): reported coordinates are relative to it
+    let mut origin: (u64, u64) = (0, 0);
     let mut errored_next = false;
+    // an injected I/O error has fired at some point of the run (including the current step)
+    let mut io_seen = false;
     for (si, step) in log.steps.iter().enumerate() {
         errored = errored_next;
+        if !step.seam.faults.is_empty() {
+            io_seen = true;
+        }
         cursors.push(match phase {
             Phase::Exact(c) | Phase::AtEnd(c) => Some(c),
             _ => None,
@@ -207,11 +237,23 @@ pub fn judge_with_cursors(model: &Model, scn: &ReadScn, log: &RunLog, o: &JudgeO
         if fault || refused || matches!(&step.out, Out::Err(e, _) if !e.is_format()) {
             errored_next = true;
         }
+        // reported coordinates -> input coordinates
+        let step_abs;
+        let step = if origin != (0, 0) {
+            let mut s2 = step.clone();
+            s2.pos = step.pos.map(|p| (p.0 + origin.0, p.1 + origin.1));
+            s2.target = step.target.map(|p| (p.0 + origin.0, p.1 + origin.1));
+            s2.out = shift_out(&step.out, origin.0);
+            step_abs = s2;
+            &step_abs
+        } else {
+            step
+        };
         // expand the step into read outcomes
         match &step.op {
             Op::Next | Op::OwnedNext => {
                 let owned = matches!(step.op, Op::OwnedNext);
-                phase = judge_single(model, phase, &step.out, owned, fault, refused, step, o, &at, &mut viol);
+                phase = judge_single(model, phase, &step.out, owned, fault, refused, io_seen, step, o, &at, &mut viol);
             }
             Op::Drain => {
                 if let Out::Drained(v) = &step.out {
@@ -230,7 +272,7 @@ pub fn judge_with_cursors(model: &Model, scn: &ReadScn, log: &RunLog, o: &JudgeO
                         let mut st = step.clone();
                         st.pos = None;
                         let is_err = matches!(one, Out::Err(e, _) if !e.is_format());
-                        ph = judge_single(model, ph, one, true, fault && is_err, refused && is_err, &st, o, &at2, &mut viol);
+                        ph = judge_single(model, ph, one, true, fault && is_err, refused && is_err, io_seen, &st, o, &at2, &mut viol);
                     }
                     // a fault-free drain must end with end of input reported twice
                     let n = v.len();
@@ -320,7 +362,7 @@ pub fn judge_with_cursors(model: &Model, scn: &ReadScn, log: &RunLog, o: &JudgeO
                         _ => {}
                     },
                     Out::Err(e, msg) => {
-                        phase = judge_error(model, phase, e, msg, fault, refused, true, step, o, &at, &mut viol);
+                        phase = judge_error(model, phase, e, msg, fault, refused, true, io_seen, step, o, &at, &mut viol);
                     }
                     _ => {}
                 }
@@ -332,7 +374,7 @@ pub fn judge_with_cursors(model: &Model, scn: &ReadScn, log: &RunLog, o: &JudgeO
                     }
                     let t = step.target.unwrap();
                     match model.items.iter().position(|it| (it.line, it.byte) == t) {
-                        Some(j) if !errored => phase = Phase::Exact(j),
+                        Some(j) if !errored || o.exact_after_seek => phase = Phase::Exact(j),
                         Some(j) => phase = Phase::Loose(j),
                         None => phase = Phase::Loose(0),
                     }
@@ -369,6 +411,14 @@ pub fn judge_with_cursors(model: &Model, scn: &ReadScn, log: &RunLog, o: &JudgeO
                 }
             }
             Op::SetPolicy(_) => {}
+            Op::Restart(_) => {
+                if let Some((j, l, b)) = step.restarted {
+                    origin = (l, b);
+                    phase = Phase::Exact(j);
+                    errored_next = false;
+                    io_seen = false;
+                }
+            }
         }
     }
     let _ = scn;
@@ -384,6 +434,7 @@ fn judge_single(
     owned: bool,
     fault: bool,
     refused: bool,
+    io_seen: bool,
     step: &Step,
     o: &JudgeOpts,
     at: &str,
@@ -423,7 +474,19 @@ fn judge_single(
                     Phase::Loose(0)
                 }
                 Phase::Loose(m) => match genuine_from(model, m, r, owned) {
-                    Some(j) => Phase::Loose(j + 1),
+                    Some(j) => {
+                        if o.check_pos && !io_seen && !matches!(step.op, Op::Drain) {
+                            let item = &model.items[j];
+                            // only unambiguous when no later item renders identically
+                            let unique = genuine_from(model, j + 1, r, owned).is_none();
+                            if let (Some(pos), true) = (step.pos, unique) {
+                                if pos != (item.line, item.byte) {
+                                    viol("position_after_refusal", format!("{}: position (line {}, byte {}) reported for the record at line {} byte {} (after a refused growth)", at, pos.0, pos.1, item.line, item.byte));
+                                }
+                            }
+                        }
+                        Phase::Loose(j + 1)
+                    }
                     None => {
                         viol("fabricated_record", format!("{}: after an error, returned {} which is not a record of the input at or after index {}", at, show_rec(r), m));
                         Phase::Loose(m)
@@ -448,7 +511,7 @@ fn judge_single(
             }
             ph => ph,
         },
-        Out::Err(e, msg) => judge_error(model, phase, e, msg, fault, refused, false, step, o, at, viol),
+        Out::Err(e, msg) => judge_error(model, phase, e, msg, fault, refused, false, io_seen, step, o, at, viol),
         _ => phase,
     }
 }
@@ -462,6 +525,7 @@ fn judge_error(
     fault: bool,
     refused: bool,
     is_set: bool,
+    io_seen: bool,
     step: &Step,
     o: &JudgeOpts,
     at: &str,
@@ -488,15 +552,17 @@ fn judge_error(
             } else if fault {
                 // both happened in one call: either report is fine
             }
-            if matches!(phase, Phase::Done) {
-                Phase::Done
-            } else {
-                Phase::Loose(cursor)
+            match phase {
+                Phase::Done => Phase::Done,
+                // a refused growth during a single-record read loses nothing: the buffer is full
+                // and consistent, the same record is searched again by the next call
+                Phase::Exact(c) if !is_set && refused && !fault => Phase::Exact(c),
+                _ => Phase::Loose(cursor),
             }
         }
         _ => {
             // format error
-            if o.check_msg {
+            if o.check_msg && !msg.is_empty() {
                 if let Err(why) = msg_ok(e, msg) {
                     viol("message", format!("{}: {}", at, why));
                 }
@@ -532,7 +598,18 @@ fn judge_error(
                     viol("not_end_after_end", format!("{}: returned {:?} after end of input / a format error had been reported", at, e));
                     Phase::Done
                 }
-                Phase::Loose(m) => Phase::Loose(m),
+                Phase::Loose(m) => {
+                    // After refusals only (no I/O error so far) nothing in the reader is
+                    // corrupted: a format error reported now is the input's own error and must
+                    // carry its true coordinates (C17), unless the input has no error of that kind
+                    if !io_seen {
+                        let same_kind: Vec<&Item> = model.items[m.min(model.items.len())..].iter().filter(|it| it.errs.iter().any(|p| p.kind == e.kind())).collect();
+                        if !same_kind.is_empty() && !same_kind.iter().any(|it| it.errs.iter().any(|p| p.matches(e))) {
+                            viol("wrong_error_after_refusal", format!("{}: returned {:?} after a refused growth; the input's error of that kind is {}", at, e, show_item(same_kind[0])));
+                        }
+                    }
+                    Phase::Loose(m)
+                }
             }
         }
     }
